@@ -17,14 +17,31 @@ type spec struct {
 	ntx    int
 }
 
-func (e *env) build(prefix string, specs []spec) []*mblock {
+// specOpt: optional placement of transactions for one block of a tree
+type specOpt struct {
+	senders []int // senders of the fresh transactions (nil: any)
+	reuse   []int // earlier blocks (indices) whose transactions this block takes over as far as the nonces fit
+}
+
+func (e *env) build(prefix string, specs []spec) []*mblock { return e.buildOpt(prefix, specs, nil) }
+
+func (e *env) buildOpt(prefix string, specs []spec, opts map[int]specOpt) []*mblock {
 	out := make([]*mblock, len(specs))
-	for i, sp := range specs {
+	for i, sp0 := range specs {
+		sp := struct {
+			spec
+			specOpt
+		}{sp0, opts[i]}
 		par := e.p.gen
 		if sp.parent >= 0 {
 			par = out[sp.parent]
 		}
+		e.p.senders, e.p.want = sp.senders, nil
+		for _, r := range sp.reuse {
+			e.p.want = append(e.p.want, out[r].txs...)
+		}
 		out[i] = e.p.make(fmt.Sprintf("%s%d", prefix, i), par, sp.ntx, sp.kind)
+		e.p.senders, e.p.want = nil, nil
 	}
 	return out
 }
@@ -318,6 +335,63 @@ func (e *env) famTwoBranches(depth, m, s, inv int, invKind kind, maxOrders int, 
 	}
 }
 
+// famSharedHigh: transactions that are on both branches, placed at a chosen height of the new branch — in particular
+// above the old best height (the new branch is longer by `extra` >= 1): prefix of `depth` blocks, main branch of m blocks
+// (senders 0,1), side branch of m+extra blocks whose block `at` takes over the transactions of the first `share` main
+// blocks (the other side blocks use senders 2,3, so the nonces fit); main-branch transactions not taken over are only
+// on the abandoned branch. Delivered main first then side in order, side children-first, and interleaved.
+func (e *env) famSharedHigh(depth, m, extra, at, share int) {
+	var specs []spec
+	opts := map[int]specOpt{}
+	for i := 0; i < depth; i++ {
+		specs = append(specs, spec{parent: i - 1, kind: kValid, ntx: e.ntx()})
+	}
+	mainFrom := len(specs)
+	for i := 0; i < m; i++ {
+		par := len(specs) - 1
+		if i == 0 {
+			par = depth - 1
+		}
+		opts[len(specs)] = specOpt{senders: []int{0, 1}}
+		specs = append(specs, spec{parent: par, kind: kValid, ntx: 1 + e.rng.Intn(2)})
+	}
+	sideFrom := len(specs)
+	s := m + extra
+	for i := 0; i < s; i++ {
+		par := len(specs) - 1
+		if i == 0 {
+			par = depth - 1
+		}
+		o := specOpt{senders: []int{2, 3}}
+		if i == at {
+			o.reuse = seq(mainFrom, share)
+		}
+		opts[len(specs)] = o
+		specs = append(specs, spec{parent: par, kind: kValid, ntx: e.rng.Intn(2)})
+	}
+	blocks := e.buildOpt(fmt.Sprintf("h%d.%d.%d.%d.", depth, m, extra, at), specs, opts)
+	prefix, mainSeq, sideSeq := seq(0, depth), seq(mainFrom, m), seq(sideFrom, s)
+	ils := interleavings(mainSeq, sideSeq)
+	orders := [][]int{append(append([]int{}, mainSeq...), sideSeq...), append(append([]int{}, mainSeq...), rev(sideSeq)...),
+		ils[e.rng.Intn(len(ils))]}
+	for _, o := range orders {
+		e.runScenario(&scenario{name: fmt.Sprintf("shared-high/d%d-m%d-x%d-at%d-sh%d", depth, m, extra, at, share), blocks: blocks,
+			arrivals: append(append([]int{}, prefix...), o...)})
+	}
+}
+
+func (e *env) famSharedHighAll(maxDepth, maxMain, maxExtra int) {
+	for depth := 0; depth <= maxDepth; depth++ {
+		for m := 1; m <= maxMain; m++ {
+			for extra := 1; extra <= maxExtra; extra++ {
+				for at := 0; at < m+extra; at++ {
+					e.famSharedHigh(depth, m, extra, at, 1+e.rng.Intn(m))
+				}
+			}
+		}
+	}
+}
+
 // famThreeBranches: three branches from a common prefix (the third forks from the first or the second branch),
 // random lengths, random interleaving or shuffle.
 func (e *env) famThreeBranches() {
@@ -475,6 +549,7 @@ func Main(prop string) {
 			e.famTwoBranches(rng.Intn(3), 1+rng.Intn(3), s, rng.Intn(s), invalidKinds[rng.Intn(len(invalidKinds))], 4, -1)
 		}
 	} else if prop == "C05" {
+		e.famSharedHighAll(run.Pick(1, 2), run.Pick(2, 3), run.Pick(3, 3))
 		// small scope, exhaustively: every tree shape, every arrival order, one invalid block at every position
 		for n := 1; n <= run.Pick(4, 5); n++ {
 			c := e.famSmall(n, -1)
@@ -501,6 +576,7 @@ func Main(prop string) {
 	} else {
 		// pairs of branches: every fork depth, every length difference -2..+3, an invalid block at every position of the
 		// longer branch, every interleaving (quick: sampled)
+		e.famSharedHighAll(run.Pick(1, 2), run.Pick(2, 3), run.Pick(3, 3))
 		maxDepth, maxMain := run.Pick(2, 4), run.Pick(2, 3)
 		for depth := 0; depth <= maxDepth; depth++ {
 			for m := 1; m <= maxMain; m++ {
